@@ -155,7 +155,7 @@ func Recv2[C ~chan V | ~<-chan V, V any](ch C) (V, bool) {
 func Close[C ~chan V | ~chan<- V, V any](ch C) {
 	id := chanID(ch)
 	if cur != nil {
-		PointOp(&Op{Kind: "chan.close", Obj: id, Write: true})
+		PointOp(&Op{Kind: "chan.close", Obj: chanPtr(ch), Write: true})
 	}
 	if id == 0 {
 		panic("close of nil channel")
@@ -299,7 +299,7 @@ func runChanOp(op *chanOp) int {
 			c.deliver(t.hval, t.hok)
 		}
 		t.hval = nil
-		s.executed(t, &Op{Kind: kind + ".done", Obj: c.id, Write: true})
+		s.executed(t, &Op{Kind: kind + ".done", Obj: c.ptr, Write: true})
 		return t.hcase
 	}
 	var readyIdx [8]int
@@ -313,7 +313,7 @@ func runChanOp(op *chanOp) int {
 		if !op.hasDefault {
 			panic("vrt: channel operation scheduled while not ready")
 		}
-		s.executed(t, &Op{Kind: kind + ".default", Obj: op.cases[0].id, Write: false})
+		s.executed(t, &Op{Kind: kind + ".default", Obj: op.cases[0].ptr, Write: false})
 		return -1
 	}
 	k := ready[0]
@@ -321,7 +321,7 @@ func runChanOp(op *chanOp) int {
 		k = ready[s.choose(len(ready), false, true)]
 	}
 	c := op.cases[k]
-	s.executed(t, &Op{Kind: kind, Obj: c.id, Write: true})
+	s.executed(t, &Op{Kind: kind, Obj: c.ptr, Write: true})
 	closed := isClosed(c.id)
 	if c.send {
 		if closed {
